@@ -124,6 +124,56 @@ func (g *Gen) candidate(a *app.ShutterApp) *shmsg.Message {
 	if len(g.cands) > 0 && r.Chance(3, 4) {
 		return g.cands[r.Intn(len(g.cands))]
 	}
+	// near-duplicates: the numbers of an existing candidate (or of the last accepted config)
+	// with the keyper list permuted, extended or truncated - equal as sets or as prefixes, but
+	// not the identical configuration
+	if r.Chance(1, 4) {
+		var act, thr, idx uint64
+		var ks []common.Address
+		if len(g.cands) > 0 && r.Chance(2, 3) {
+			b := g.cands[r.Intn(len(g.cands))].GetBatchConfig()
+			act, thr, idx = b.ActivationBlockNumber, b.Threshold, b.KeyperConfigIndex
+			for _, k := range b.Keypers {
+				ks = append(ks, common.BytesToAddress(k))
+			}
+		} else {
+			act, thr, idx = lc.ActivationBlockNumber, lc.Threshold, lc.KeyperConfigIndex
+			ks = append(ks, lc.Keypers...)
+		}
+		switch r.Intn(4) {
+		case 0: // reversed
+			for i, j := 0, len(ks)-1; i < j; i, j = i+1, j-1 {
+				ks[i], ks[j] = ks[j], ks[i]
+			}
+		case 1: // rotated
+			if len(ks) > 1 {
+				ks = append(ks[1:], ks[0])
+			}
+		case 2: // one more keyper at the end
+			for _, b := range g.someAddrs(6) {
+				a := common.BytesToAddress(b)
+				dup := false
+				for _, k := range ks {
+					dup = dup || k == a
+				}
+				if !dup {
+					ks = append(ks, a)
+					break
+				}
+			}
+		default: // last keyper dropped
+			if len(ks) > 1 {
+				ks = ks[:len(ks)-1]
+			}
+		}
+		m := shmsg.NewBatchConfig(act, ks, thr, idx)
+		if len(g.cands) < 3 {
+			g.cands = append(g.cands, m)
+		} else {
+			g.cands[r.Intn(3)] = m
+		}
+		return m
+	}
 	n := 2 + r.Intn(3)
 	ks := []common.Address{}
 	for _, b := range g.someAddrs(n) {
